@@ -1,11 +1,15 @@
 import RedisVerif.Driver.Codec
 import RedisVerif.Props.C03
+import RedisVerif.Model.ShardsClock
 
 /-
   C03 sub-driver (stateful): the sharding layer over the small concrete executor.
     NEW <N> <fixed01> <n> (<key> <rs|-> <rb>)*     → ok     (rs = `-`: key is not UTF-8, byte paths only)
     <CMD> args…                                     → canonical reply
     DUMP <fast01>                                   → aggregate dump taken through the public API
+    TNEW <N> <carries01> <n> (<key> <rs|-> <rb>)*   → ok     timed stream (per-shard clocks, expiry); carries =
+                                                             the fast messages carry the virtual time
+    T <now-ms> SET|SETPX|GET|EXISTS|DBSIZE|FGET|PGET|FSET|PSET args…  → canonical reply
 -/
 namespace RedisVerif.Driver.C03
 open RedisVerif RedisVerif.Driver RedisVerif.Shards RedisVerif.Shards.Str
@@ -16,8 +20,11 @@ structure DState where
   st : Shards SVal
   /-- keys that can be named by a generic command (valid UTF-8) -/
   utf8 : NSet
+  /-- timed streams: per-shard stores with deadlines and clocks -/
+  tst : List Clock.TShard := []
+  carries : Bool := true
 
-def DState.init : DState := { R := Routes.ofTable 1 [], fixed := false, st := [[]], utf8 := [] }
+def DState.init : DState := { R := Routes.ofTable 1 [], fixed := true, st := [[]], utf8 := [] }
 
 def showR1 : R1 → String
   | .ok => "ok"
@@ -101,6 +108,30 @@ def parseNew : P (Nat × Bool × List (Nat × Option Nat × Nat)) := do
   let tbl ← repeatP m (do let k ← strKey; let rs ← optNat; let rb ← nat; pure (k, rs, rb))
   pure (n, f != 0, tbl)
 
+def parseT : P (Nat × Clock.TCmd) := do
+  expect "T"
+  let now ← nat
+  let t ← tok
+  match t with
+  | "SET" => do let k ← strKey; let v ← bytesTok; pure (now, .set k v)
+  | "SETPX" => do let k ← strKey; let v ← bytesTok; let ms ← nat; pure (now, .setPx k v ms)
+  | "GET" => do let k ← strKey; pure (now, .get k)
+  | "EXISTS" => do let k ← strKey; pure (now, .exists k)
+  | "DBSIZE" => pure (now, .dbsize)
+  | "FGET" => do let k ← strKey; pure (now, .fastGet k)
+  | "PGET" => do let k ← strKey; pure (now, .fastGet k)
+  | "FSET" => do let k ← strKey; let v ← bytesTok; pure (now, .fastSet k v)
+  | "PSET" => do let k ← strKey; let v ← bytesTok; pure (now, .fastSet k v)
+  | _ => failure
+
+def parseTNew : P (Nat × Bool × List (Nat × Option Nat × Nat)) := do
+  expect "TNEW"
+  let n ← nat
+  let f ← nat
+  let m ← nat
+  let tbl ← repeatP m (do let k ← strKey; let rs ← optNat; let rb ← nat; pure (k, rs, rb))
+  pure (n, f != 0, tbl)
+
 def dedupSorted : List Nat → List Nat
   | [] => []
   | [x] => [x]
@@ -128,6 +159,18 @@ def step (d : DState) (line : String) : DState × String :=
       ({ R := Routes.ofTable n t, fixed := f, st := Shards.init SVal n, utf8 := u }, "ok")
     | none => (d, "bad-op")
   | ["DUMP", f] => (d, dump d (f != "0"))
+  | "TNEW" :: _ =>
+    match runP parseTNew line with
+    | some (n, f, tbl) =>
+      let t : NMap (Nat × Nat) := NMap.ofList (tbl.map (fun e => (e.1, (e.2.2, e.2.2))))
+      ({ d with R := Routes.ofTable n t, carries := f, tst := Clock.tinit n }, "ok")
+    | none => (d, "bad-op")
+  | "T" :: _ =>
+    match runP parseT line with
+    | some (now, c) =>
+      let r := Clock.execNT d.R d.carries now d.tst c
+      ({ d with tst := r.1 }, showR1 r.2)
+    | none => (d, "bad-op")
   | _ =>
     match runP parseCmd line with
     | some c =>
